@@ -323,12 +323,21 @@ def eval_instance(i):
         wkl = kl_pieces(Ki, Kzz, mz, um, uS)
         interp = mmul(inv(L), tr(Kxz))
         cw = dict(mean=vadd(mvec(tr(interp), cd["mean"]), mx), cov=madd(Kxx, mmul(mmul(tr(interp), msub(cd["cov"], Ik)), interp)))
+        # legacy checkpoint: the stored q(u) whitened once with L, then forward on the whitened parameters
+        Li = inv(L)
+        lgm = mvec(Li, vsub(cd["mean"], mz))
+        lgroot = mmul(Li, cd["root"])
+        lgcov = mmul(lgroot, tr(lgroot))
+        cl = dict(mean=vadd(mvec(tr(interp), lgm), mx), cov=madd(Kxx, mmul(mmul(tr(interp), msub(lgcov, Ik)), interp)),
+                  tr=trace(lgcov), quad=dot(lgm, lgm), detS=det(lgcov))
+        rmul(dkl["detK"], cl["detS"])                   # evaluated by invariant LegacyOK
+        out.update(cl=cl)
         out.update(w=dict(mean=wmean, cov=wcov, kl=wkl, wtr=trace(qS), wquad=dot(qm, qm), wdetS=det(qS)), cw=cw,
                    cu2=u_code(mx, Kxx, Kxz, Ki, mz, um, mmul(L, cd["root"])), um=um, uS=uS,
                    ow=(orth(wmean, wcov) if p > 0 else none))
         rmul(wkl["detK"], out["w"]["wdetS"])            # evaluated by invariant WhiteKLOK
     else:
-        out.update(w=none, cw=none, cu2=none, um=(), uS=(), ow=none)
+        out.update(w=none, cw=none, cu2=none, cl=none, um=(), uS=(), ow=none)
     return out
 
 
@@ -339,6 +348,9 @@ def invariants_hold(o):
     if o["white"]:
         ok = ok and o["cw"]["mean"] == o["w"]["mean"] and o["cw"]["cov"] == o["w"]["cov"]
         ok = ok and o["cu2"]["mean"] == o["cw"]["mean"] and o["cu2"]["cov"] == o["cw"]["cov"]
+        ok = ok and o["cl"]["mean"] == o["d"]["mean"] and o["cl"]["cov"] == o["d"]["cov"]
+        ok = ok and o["cl"]["tr"] == o["d"]["kl"]["tr"] and o["cl"]["quad"] == o["d"]["kl"]["quad"]
+        ok = ok and o["d"]["kl"]["detS"] == rmul(o["d"]["kl"]["detK"], o["cl"]["detS"])
     return ok
 
 
